@@ -68,6 +68,9 @@ def run(tier="quick"):
                detail="%s:%d: %s [%s]" % (fpath, line, msg, flag))
     if not diags:
         chk.ob("I1", "conf.c", "uninit", True, loc="src/conf.c", proof="clang -Wuninitialized -Wsometimes-uninitialized: no report")
+    # L4 a released table entry is refilled
+    nrel = R.check_release_refill(chk, u, "L4")
+    chk.count("released_table_entries", nrel, floor=1)
     # F1 message formats
     nfmt = R.check_format_args(chk, [prog.units[x] for x in ("conf.c", "file.c") if x in prog.units], "F1")
     chk.count("format_call_sites", nfmt, floor=40)
